@@ -12,6 +12,11 @@ B. state cheatcodes: deal/store/etch/warp/roll/fee/chainId/coinbase/difficulty w
    BALANCE / SLOAD (through a getter call) / EXTCODESIZE / TIMESTAMP / NUMBER / BASEFEE / CHAINID / COINBASE / PREVRANDAO of
    the targeted and an untargeted account, vm.load — against the reference EVM (Spec.Evm.exec) run on the world/params
    updated by Spec.Foundry.applyWorld/applyParams, and against the Model's network state.
+B'. multi-path contexts: a forking sub-context first (CREATE / CREATE2 whose constructor forks on tx.origin's low bit, CALL to
+   a forking callee; each side returns or reverts — both fail, both succeed, mixed), then read-modify-write cheats
+   (vm.load+vm.store(+d), BALANCE+vm.deal(+d), SLOAD+SSTORE(+d), path-conditional vm.etch / vm.store); every path's reads must be
+   what THAT path stored: the reference EVM runs the reads on the world obtained by applying the path's own cheat sequence
+   (Spec.Foundry.applyWorld, `cheatinc` requests of Driver/Prank).
 C. every svm.create* / vm.random* selector: label, width, counter, encoding under sampled valuations (vs Model.Prank.create
    and the Spec's value sets), reachability of boundary values, independence of consecutive creations.
 D. a later transaction (SEVM.run_message on the end state of a transaction that left startPrank active) is not pranked.
